@@ -6,6 +6,7 @@ import (
 	"math/big"
 	"testing"
 
+	"verif/cs"
 	"verif/eng"
 	"verif/ref"
 
@@ -257,11 +258,89 @@ func c08Run(c c08Case) caseResult {
 	return cr
 }
 
+// ---------- operation sequences over the extension API (values reused by later calls) ----------
+type extOp struct {
+	Op   string `json:"op"` // add sub mul muladd submul
+	Args [3]int `json:"args"`
+}
+type extProg struct {
+	Backend string      `json:"backend"` // eng | r1cs | scs
+	Mode    int         `json:"mode"`
+	Inputs  [][2]uint64 `json:"inputs"`
+	Ops     []extOp     `json:"ops"`
+}
+
+func runExtProg(p extProg) caseResult {
+	pool := toEs(p.Inputs)
+	for _, o := range p.Ops {
+		a, b, c := pool[o.Args[0]], pool[o.Args[1]], pool[o.Args[2]]
+		var r ref.E
+		switch o.Op {
+		case "add":
+			r = ref.EAdd(a, b)
+		case "sub":
+			r = ref.ESub(a, b)
+		case "mul":
+			r = ref.EMul(a, b)
+		case "muladd":
+			r = ref.EAdd(ref.EMul(a, b), c)
+		case "submul":
+			r = ref.EMul(ref.ESub(a, b), c)
+		}
+		pool = append(pool, r)
+	}
+	fn := func(api frontend.API, v []frontend.Variable) []frontend.Variable {
+		g := gl.New(api)
+		var vp []gl.QuadraticExtensionVariable
+		for i := 0; i+1 < len(v); i += 2 {
+			vp = append(vp, qev(v[i], v[i+1]))
+		}
+		for _, o := range p.Ops {
+			a, b, c := vp[o.Args[0]], vp[o.Args[1]], vp[o.Args[2]]
+			var r gl.QuadraticExtensionVariable
+			switch o.Op {
+			case "add":
+				r = g.AddExtension(a, b)
+			case "sub":
+				r = g.SubExtension(a, b)
+			case "mul":
+				r = g.MulExtension(a, b)
+			case "muladd":
+				r = g.MulAddExtension(a, b, c)
+			case "submul":
+				r = g.SubMulExtension(a, b, c)
+			}
+			vp = append(vp, r)
+		}
+		return flatQE(vp)
+	}
+	in, want := flatE(toEs(p.Inputs)), flatE(pool)
+	if p.Backend == "eng" {
+		return expectOutputsEng("ext-program", eng.Mode(p.Mode), in, fn, want)
+	}
+	kind := cs.R1CS
+	if p.Backend == "scs" {
+		kind = cs.SCS
+	}
+	mech := cs.MechForcedBits
+	if p.Mode == 1 {
+		mech = cs.MechNative
+	}
+	sys, err := cs.Compile(kind, mech, len(in), len(want), fn)
+	if err != nil {
+		return caseResult{Viol: "ext-program/compile", Desc: fmt.Sprintf("program %v does not compile for %s: %v", p.Ops, p.Backend, err)}
+	}
+	if err := sys.Solve(in, want); err != nil {
+		return caseResult{Viol: "ext-program/" + p.Backend, Desc: fmt.Sprintf("extension program %v on inputs %v: compiled %s system rejects the honest witness with the GF(p^2) results as expected outputs: %v", p.Ops, p.Inputs, p.Backend, truncate(err.Error(), 200))}
+	}
+	return caseResult{}
+}
+
 func TestC08(t *testing.T) {
 	s := newSuite("C08")
 	r := s.r
 	defer r.Flush()
-	r.Rule("operand tuples over GF(p^2) with every coordinate drawn from {0,1,p-1,2^32-1,2^32,2^63,p-2^32,...} mixed with uniform values, through every extension-field gadget (add, sub, mul, scalar mul, mul-add, sub-mul, the NoReduce variants (checked modulo p), inverse, div, exp with exponents 0..2^20 and random 64-bit, ReduceWithPowers and InnerProductExtension on lists of length 0..300, IsZero, Lookup, Lookup2) and the degree-2 algebra (add, sub, mul, scalar mul, PartialInterpolateExtAlgebra on random domains/weights of 1..8 points) and compared with the reference GF(p^2)/algebra; inverse/div of zero must be rejected; metamorphic field laws evaluated in circuit: a*a^-1=1, (a/b)*b=a, a^(m+n)=a^m*a^n.  Non-trivial = some operand has a non-zero imaginary part or an edge coordinate; distinct = (op, operands).")
+	r.Rule("operand tuples over GF(p^2) with every coordinate drawn from {0,1,p-1,2^32-1,2^32,2^63,p-2^32,...} mixed with uniform values, through every extension-field gadget (add, sub, mul, scalar mul, mul-add, sub-mul, the NoReduce variants (checked modulo p), inverse, div, exp with exponents 0..2^20 and random 64-bit, ReduceWithPowers and InnerProductExtension on lists of length 0..300, IsZero, Lookup, Lookup2) and the degree-2 algebra (add, sub, mul, scalar mul, PartialInterpolateExtAlgebra on random domains/weights of 1..8 points) and compared with the reference GF(p^2)/algebra; inverse/div of zero must be rejected; sequences of 2..8 extension operations over a value pool (operands biased to recent results, one in four calls with the same variable on both sides) on the engine and compiled to R1CS/SCS; metamorphic field laws evaluated in circuit: a*a^-1=1, (a/b)*b=a, a^(m+n)=a^m*a^n.  Non-trivial = some operand has a non-zero imaginary part or an edge coordinate; distinct = (op, operands).")
 	r.Assume("reference GF(p^2) arithmetic (30 lines, validated through real-proof acceptance)")
 	s.on("ext", func(b json.RawMessage) caseResult {
 		c := unmarshal[c08Case](b)
@@ -275,9 +354,34 @@ func TestC08(t *testing.T) {
 		cr.Trivial = !nt
 		return cr
 	})
+	s.on("extprog", func(b json.RawMessage) caseResult { return runExtProg(unmarshal[extProg](b)) })
 	if s.replay(t) {
 		return
 	}
+	rapidCheck(t, "extprog", tierN(600, 40000), func(rt *rapid.T) {
+		p := extProg{Backend: rapid.SampledFrom([]string{"eng", "r1cs", "r1cs", "scs"}).Draw(rt, "backend"), Mode: rapid.IntRange(0, 1).Draw(rt, "mode")}
+		n := rapid.IntRange(1, 3).Draw(rt, "inputs")
+		for i := 0; i < n; i++ {
+			p.Inputs = append(p.Inputs, e2(genE().Draw(rt, "in")))
+		}
+		size := n
+		steps := rapid.IntRange(2, 8).Draw(rt, "steps")
+		for i := 0; i < steps; i++ {
+			lo := 0
+			if size > 3 && rapid.Bool().Draw(rt, "recent") {
+				lo = size - 3
+			}
+			pick := func(name string) int { return rapid.IntRange(lo, size-1).Draw(rt, name) }
+			o := extOp{Op: rapid.SampledFrom([]string{"add", "sub", "mul", "muladd", "submul"}).Draw(rt, "op")}
+			o.Args = [3]int{pick("a"), pick("b"), pick("c")}
+			if rapid.IntRange(0, 3).Draw(rt, "same") == 0 {
+				o.Args[1] = o.Args[0] // same variable on both sides, e.g. add(x,x)
+			}
+			p.Ops = append(p.Ops, o)
+			size++
+		}
+		s.exec(rt, "extprog", p, "ext-program/"+p.Backend)
+	})
 	ops := []string{"add", "sub", "mul", "scalarmul", "muladd", "submul", "addnr", "subnr", "mulnr", "muladdnr", "inverse", "div", "exp", "exp", "reducewithpowers", "innerproduct", "iszero", "lookup", "lookup2", "adda", "suba", "mula", "scalarmula", "partialinterp", "law-inverse", "law-div", "law-exp"}
 	arity := map[string]int{"add": 2, "sub": 2, "mul": 2, "scalarmul": 1, "muladd": 3, "submul": 3, "addnr": 2, "subnr": 2, "mulnr": 2, "muladdnr": 3, "inverse": 1, "div": 2, "exp": 1, "iszero": 1, "lookup": 2, "lookup2": 4, "adda": 4, "suba": 4, "mula": 4, "scalarmula": 3, "law-inverse": 1, "law-div": 2, "law-exp": 1}
 	genExp := func(rt *rapid.T) uint64 {
